@@ -82,3 +82,79 @@ package mat
 //@     invariant forall c int :: 0 <= c && c < j ==> elements[i*x.n + c] == lact(actor.v, x.v, actor.n, x.n, i, c, actor.n)
 //@   loop range(actor.n)
 //@     invariant sum == lact(actor.v, x.v, actor.n, x.n, i, j, k)
+
+// ---------------------------------------------------------------- square matrices (C20)
+// Ring elements S are bound to an abstract ring ("ring": radd, rmul, rzero, ...).
+// rdot(A, B, n, i, j, k) = sum_{t<k} A[i*n+t] * B[t*n+j], accumulated in the order the code accumulates it.
+//@ ghost func rdot(A []V, B []V, n Int, i Int, j Int, k Int) V
+//@ theory rdot
+//@ axiom Rdot0: forall A []V, B []V, n Int, i Int, j Int :: rdot(A, B, n, i, j, 0) == rzero()
+//@ axiom RdotS: forall A []V, B []V, n Int, i Int, j Int, k Int :: k > 0 ==> rdot(A, B, n, i, j, k) == radd(rdot(A, B, n, i, j, k-1), rmul(A[i*n + (k-1)], B[(k-1)*n + j]))
+//@ end
+//@ pure func wfSq(m *SquareMatrix) bool = m != nil && m.m == m.n && m.n > 0 && len(m.v) == m.n * m.n
+
+//@ func (*SquareMatrix).N
+//@   property C20
+//@   purefn
+//@   ensures result == m.n
+//@ func (*SquareMatrix).rows
+//@   property C20
+//@   purefn
+//@   ensures result == m.m
+//@ func (*SquareMatrix).cols
+//@   property C20
+//@   purefn
+//@   ensures result == m.n
+
+// The product is computed into a fresh buffer and copied back, so it is correct also when other == m
+// (SquareAssign): every entry is the dot product of a row of the ORIGINAL m with a column of the ORIGINAL other.
+//@ func (*SquareMatrix).MulAssign
+//@   property C20
+//@   bind S ring, FiniteRing ringS
+//@   uses rdot
+//@   nopanic
+//@   requires wfSq(m) && wfSq(other) && m.n == other.n
+//@   ensures len(m.v) == old(len(m.v)) && m.n == old(m.n)
+//@   ensures forall i, j int :: 0 <= i && i < m.n && 0 <= j && j < m.n ==> m.v[i*m.n + j] == rdot(old(m.v), old(other.v), m.n, i, j, m.n)
+//@   loop range(n)
+//@     invariant len(result) == n*n && n == m.n && m.v == old(m.v) && other.v == old(other.v)
+//@     invariant forall r, c int :: 0 <= r && r < i && 0 <= c && c < n ==> result[r*n + c] == rdot(m.v, other.v, n, r, c, n)
+//@   loop range(n)#2
+//@     invariant len(result) == n*n && n == m.n && m.v == old(m.v) && other.v == old(other.v)
+//@     invariant forall r, c int :: 0 <= r && r < i && 0 <= c && c < n ==> result[r*n + c] == rdot(m.v, other.v, n, r, c, n)
+//@     invariant forall c int :: 0 <= c && c < j ==> result[i*n + c] == rdot(m.v, other.v, n, i, c, n)
+//@   loop range(n)#3
+//@     invariant sum == rdot(m.v, other.v, n, i, j, k)
+
+// ---------------------------------------------------------------- linear solver: memory safety and shape (C20 clause 2a)
+// The augmented matrix is any wrapper that is well formed (row-major, positive dimensions). The contract
+// proves that every index computed during elimination is in bounds, that pivot bookkeeping stays consistent
+// (one pivot column per pivot row, pivot columns are variable columns) and that a returned solution has
+// one entry per variable. Exactness (A*sol == b) is not under contract.
+//@ func solveAugmented
+//@   property C20
+//@   bind S ring, Field ringS
+//@   nopanic
+//@   requires aug.rows() > 0 && aug.cols() > 0 && len(aug.data()) == aug.rows() * aug.cols()
+//@   requires forall r, c int :: aug.idx(r, c) == r * aug.cols() + c
+//@   ensures err == nil ==> len(result) == aug.cols() - 1
+//@   loop for(pc < numVars && pivotRow < rows)
+//@     invariant 0 <= pivotRow && pivotRow <= rows && pivotRow <= pc && 0 <= pc && pc <= numVars
+//@     invariant len(pivotCols) == pivotRow && len(d) == rows * cols && rows == aug.rows() && cols == aug.cols() && numVars == cols - 1
+//@     invariant forall t int :: 0 <= t && t < len(pivotCols) ==> 0 <= pivotCols[t] && pivotCols[t] < numVars
+//@   loop for(r < rows)
+//@     invariant pivotRow <= r && r <= rows && (pr == -1 || (pivotRow <= pr && pr < rows)) && len(d) == rows * cols
+//@   loop range(cols)
+//@     invariant len(d) == rows * cols
+//@   loop range(cols)#2
+//@     invariant len(d) == rows * cols
+//@   loop range(rows)
+//@     invariant len(d) == rows * cols
+//@   loop range(cols)#3
+//@     invariant len(d) == rows * cols
+//@   loop for(i < rows)
+//@     invariant pivotRow <= i && i <= rows
+//@   loop range(numVars)
+//@     invariant len(sol) == numVars
+//@   loop range(pivotCols)
+//@     invariant len(sol) == numVars
